@@ -1,11 +1,12 @@
 #!/bin/bash
 # mut.sh <prop> <file-relative-to-the-repo> <sed-expr> : apply a one-line mutation to a scratch copy of /repo,
 # run the quick check against that copy, print what it reported.  /repo itself is not touched.
+VROOT="$(cd "$(dirname "${BASH_SOURCE[0]}")/.." && pwd)"   # the verification root this script belongs to (a snapshot runs its own copy)
 prop="$1"; file="$2"; expr="$3"
-alt="$(/verif/tools/altrepo.sh)"
+alt="$($VROOT/tools/altrepo.sh)"
 sed -i "$expr" "$alt/$file"
 if git -C "$alt" diff --quiet; then echo "MUTATION DID NOT APPLY"; exit 2; fi
 git -C "$alt" diff | grep '^[-+]' | grep -v '^+++\|^---'
-cd /verif && VERIF_REPO="$alt" ./vcheck "$prop" quick 2>&1 | grep -aE "VIOLATION|KNOWN-FINDING|class:|MACHINERY|tier:" | head -${MUT_LINES:-8}
+cd "$VROOT" && VERIF_REPO="$alt" ./vcheck "$prop" quick 2>&1 | grep -aE "VIOLATION|KNOWN-FINDING|class:|MACHINERY|tier:" | head -${MUT_LINES:-8}
 echo "exit=${PIPESTATUS[0]}"
-/verif/tools/altrepo.sh >/dev/null
+$VROOT/tools/altrepo.sh >/dev/null
